@@ -76,3 +76,8 @@ func (a *Acc) Stop() {
 
 // Txt returns the advertised TXT records.
 func (a *Acc) Txt() map[string]string { return a.T.VerifTxtRecords() }
+
+// StopAsync asks the transport to stop without waiting for the mDNS goodbye.
+func (a *Acc) StopAsync() {
+	go a.Stop()
+}
